@@ -1903,7 +1903,8 @@ class _GroupElem(ABC):
 
             p0_f = [surface[0] for surface in surfaces]
             p1_f = [surface[1] for surface in surfaces]
-            p2_f = [surface[-1] for surface in surfaces]
+            # last node of the contour that is not the (repeated) first one
+            p2_f = [surface[surface != surface[0]][-1] for surface in surfaces]
 
             i_f = Normalize(coord[p1_f] - coord[p0_f])
 
